@@ -142,9 +142,9 @@ claim("C55",
       "K: the quoting decision equals an ISO 6.4.2 reference for every ASCII text of 0..3 (4 in "
       "thorough) chars, escapes of 6.4.2.1, token-separation sufficiency for all ASCII char "
       "pairs, operator bracketing sufficiency for all priorities x 7x7 specifiers.",
-      "HCPrinter's walk, op-table dependent decisions, the hex-escape branch (format!) and "
-      "non-ASCII beyond U+024F outside.",
-      K, "DESIGN.md §4 C55")
+      "HCPrinter's walk, op-table dependent decisions and non-ASCII beyond U+024F outside; the "
+      "hex-escape branch (format!) is decided from the MIR: the whole code point is formatted.",
+      K + " + " + M, "DESIGN.md §4 C55", engine="kani+mirsmt")
 
 NOT_APPLICABLE = {
     "C07": "whole compiler + VM; needs a booted Machine; no unit smaller than 'compile and run' carries the property; symbolic execution of the WAM on a symbolic program fits no meaningful bound",
